@@ -178,6 +178,39 @@ func stallStrat(rng *hx.Rng, k int) func(int, []*sched.Thread, *sched.Thread) in
 	}
 }
 
+// writers first (the sender is never scheduled, so the queue fills and the other calls park on it), then the parent
+// context is cancelled, then the parked calls run: each must return the close / context error and enqueue nothing
+func parkThenCancelStrat(rng *hx.Rng) func(int, []*sched.Thread, *sched.Thread) int {
+	cancelled := false
+	return func(_ int, en []*sched.Thread, last *sched.Thread) int {
+		if last != nil && last.Name == "parent" {
+			cancelled = true
+		}
+		var ws, par []int
+		for i, t := range en {
+			switch {
+			case strings.HasPrefix(t.Name, "w"):
+				ws = append(ws, i)
+			case t.Name == "parent":
+				par = append(par, i)
+			}
+		}
+		if !cancelled {
+			// writers may pass their closed-check and reach the select, but a parked writer is not enabled: once no
+			// writer can move, cancel
+			if len(ws) > 0 && !rng.Chance(10) {
+				return ws[rng.Intn(len(ws))]
+			}
+			if len(par) > 0 {
+				return par[0]
+			}
+		} else if len(ws) > 0 && !rng.Chance(20) {
+			return ws[rng.Intn(len(ws))]
+		}
+		return rng.Intn(len(en))
+	}
+}
+
 func replayStrat(picks []int) func(int, []*sched.Thread, *sched.Thread) int {
 	return func(step int, en []*sched.Thread, _ *sched.Thread) int {
 		if step < len(picks) && picks[step] < len(en) {
@@ -258,10 +291,21 @@ func explore(args hx.Args, meta *hx.Meta) {
 		var rp struct {
 			Cfg      cfg     `json:"cfg"`
 			Buffered *bufCfg `json:"buffered"`
+			Realtime *rtCfg  `json:"realtime"`
 		}
 		if err := hx.LoadReplay(args.Replay, &rp); err != nil {
 			fmt.Println("cannot load replay:", err)
 			os.Exit(2)
+		}
+		if rp.Realtime != nil {
+			order := runRealtime(*rp.Realtime)
+			fmt.Println("transport saw:", order)
+			if !(len(order) >= 3 && order[0] == "writev" && order[1] == "flush" && order[2] == "close") {
+				fmt.Println("REPRODUCED: the transport was closed before the accepted payload was written and flushed, within the grace period")
+				os.Exit(1)
+			}
+			fmt.Println("not reproduced")
+			return
 		}
 		if rp.Buffered != nil {
 			got, want, _, stuck := runBuffered(*rp.Buffered, replayStrat(rp.Buffered.Picks))
@@ -367,6 +411,27 @@ func explore(args hx.Args, meta *hx.Meta) {
 			emit(c, o)
 			continue
 		}
+		if (prop == "C18" || prop == "C11") && i%6 == 5 && c.QCap > 0 {
+			// blocking mode, small queue, the sender held back, the parent context cancelled while calls wait for space
+			c.Until, c.Parent, c.Closers = true, true, nil
+			if c.QCap > 2 {
+				c.QCap = 1 + rng.Intn(2)
+			}
+			for w := range c.Writers {
+				for k := range c.Writers[w].Calls {
+					if rng.Chance(60) {
+						c.Writers[w].Calls[k].Kind = []int{1, 3}[rng.Intn(2)]
+						c.Writers[w].Calls[k].Segs = 1 + rng.Intn(3)
+					}
+				}
+			}
+			c.Starve = true
+			c.Strat, strat = "park-then-cancel", parkThenCancelStrat(rng)
+			meta.Count("strategy", c.Strat)
+			o := runCfg(c, strat)
+			emit(c, o)
+			continue
+		}
 		switch i % 3 {
 		case 0:
 			c.Strat, strat = "random", randomStrat(rng)
@@ -385,6 +450,9 @@ func explore(args hx.Args, meta *hx.Meta) {
 			}
 			meta.Sample(map[string]interface{}{"cfg": c, "schedule": tr, "batches": o.Batches})
 		}
+	}
+	if prop == "C06" {
+		exploreRealtime(meta)
 	}
 	if prop == "C01" || prop == "C02" {
 		exploreBuffered(rng, meta, prop, hx.Pick3(args.Tier, 600, 20000, 8000))
